@@ -91,6 +91,9 @@ class StmtMixin:
             meth = expr.func.attr
             if meth in self.MUTATORS:
                 recv = self.ev(recv_node, st)
+                if recv.__class__.__name__ == "ObjDict":
+                    args = [self.ev(a, st) for a in expr.args]
+                    return self.objdict_method(recv, meth, args, {}, st, expr)
                 if not (isinstance(recv, SV) and isinstance(recv.ty, TObj)) and not isinstance(recv, (ModuleRef, ClassRef, FuncRef)):
                     args = [self.ev(a, st) for a in expr.args]
                     kwargs = {k.arg: self.ev(k.value, st) for k in expr.keywords}
@@ -470,7 +473,10 @@ class StmtMixin:
 
         def inv_at(state, k):
             cx = Ctx(self, state, self.entry_state)
-            return spec.inv(cx, k, Vars(state.env))
+            try:
+                return spec.inv(cx, k, Vars(state.env))
+            except AttributeError as ex:
+                raise Unsupported(f"MOVED: the invariant of loop #{ordinal} refers to a variable that no longer exists ({ex})")
 
         # 1. established on entry
         self.emit("inv.init", spec.label, st, inv_at(st, z3.IntVal(0)))
@@ -575,7 +581,10 @@ class StmtMixin:
         mod = sorted(n_ for n_ in self.assigned_names(node.body + node.orelse) if n_ in st.env)
 
         def inv_at(state, k):
-            return spec.inv(Ctx(self, state, self.entry_state), k, Vars(state.env))
+            try:
+                return spec.inv(Ctx(self, state, self.entry_state), k, Vars(state.env))
+            except AttributeError as ex:
+                raise Unsupported(f"MOVED: the invariant of loop #{ordinal} refers to a variable that no longer exists ({ex})")
 
         self.emit("inv.init", spec.label, st, inv_at(st, z3.IntVal(0)))
         hs = self.havoc_loop(st, mod)
